@@ -180,7 +180,7 @@ def storeStep (w : World) (toks : List String) : Option (World × String) :=
     | .ok (m, sc) =>
       let (w', o) := w.exec evs (fun w => { w with handle := some m, scan := some sc })
       some (w', withOutcome armed o (if w.cfg.scan then
-        s!"ok orphans={sc.orphaned.length} missing={sc.missing.length} corrupted={sc.corrupted.length} staging={sc.staging} total={sc.total}"
+        s!"ok orphans={sc.orphaned.length} missing={sc.missing.length} corrupted={sc.corrupted.length} staging={sc.staging.length} total={sc.total}"
         else "ok noscan"))
     | .error e =>
       let (w', o) := w.exec evs id
@@ -204,7 +204,7 @@ def storeStep (w : World) (toks : List String) : Option (World × String) :=
     | some m =>
       let t := w.stagingCtr
       let (evs, m', r) := putScript H m w.disk t k chunks
-      let (w', o) := { w with stagingCtr := t + 1 }.exec evs (fun w => { w with handle := some m' })
+      let (w', o) := w.exec evs (fun w => { w with handle := some m' })
       pure (w', withOutcome armed o (match r with | .ok => "ok" | .panic _ => "panic"))
   | ["begin", id, k] => do
     let id ← id.toNat?
@@ -213,7 +213,7 @@ def storeStep (w : World) (toks : List String) : Option (World × String) :=
     | none => pure (w, "nohandle")
     | some _ =>
       let t := w.stagingCtr
-      let (w', o) := { w with stagingCtr := t + 1 }.exec (beginScript t)
+      let (w', o) := w.exec (beginScript t)
         (fun (w : World) => { w with txs := w.txs ++ [({ id := id, t := t, key := k, chunks := [] } : Tx)] })
       pure (w', withOutcome armed o "ok")
   | ["write", id, chunk] => do
@@ -320,6 +320,16 @@ def storeStep (w : World) (toks : List String) : Option (World × String) :=
     match w.handle with
     | none => some (w, "nohandle")
     | some m => some (w, s!"next={m.next} persisted={m.idx.lastPersisted} intents=0")
+  | ["delete_orphans"] =>
+    match w.handle, w.scan with
+    | some m, some sc =>
+      let (evs, del, skip, st) := deleteOrphansScript m sc w.disk
+      let (w', o) := w.exec evs id
+      some (w', withOutcome armed o s!"deleted={del} skipped={skip} invalid=0 staging={st} errors=0")
+    | _, _ => some (w, "nostats")
+  | ["traceset"] =>
+    let l := (w.trace.filterMap evText).toArray.qsort (· < ·) |>.toList
+    some ({ w with trace := [] }, if l.isEmpty then "_" else ";".intercalate l)
   | ["dump"] => some (w, showDump w.disk)
   | ["trace"] => some ({ w with trace := [] }, showTrace w.trace)
   | _ => none
